@@ -158,11 +158,8 @@ class Kauri(ClusterMixin, BaseEstimator, ABC):
     def _compute_kernel(self, X, y=None):
         if self.kernel == "precomputed":
             if y is None:
-                warnings.warn("A precomputed kernel was supposed to be passed to arg y, yet y is None... "
-                              "Switching to linear kernel")
-                kernel = pairwise_kernels(X, metric="linear")
-            else:
-                kernel = y
+                raise ValueError(f"Kernel should be precomputed, yet no kernel was passed as parameters: y={y}")
+            kernel = y
         else:
             kernel = pairwise_kernels(X, metric=self.kernel)
         return kernel
